@@ -587,7 +587,11 @@ fn main() {
         .spawn(move || {
             let mut cases = std::io::BufWriter::new(std::fs::File::create(&cases_path).unwrap());
             let mut imp = std::io::BufWriter::new(std::fs::File::create(&impl_path).unwrap());
-            let mut rng = Rng::new(seed ^ 0xC17);
+            // The shared SplitMix64 seeds consecutive integers one step apart (state = seed*gamma + c), so that
+            // the streams of seeds s and s+1 overlap; start from a mixed output instead.
+            let mut seeder = Rng::new(seed ^ 0xC17);
+            seeder.next();
+            let mut rng = Rng(seeder.next() ^ seed.rotate_left(32));
             let mut emit = |input: &[u8], rng: &mut Rng, fixed: Option<&str>| {
                 let (c, i) = run_case(input, rng, fixed);
                 writeln!(cases, "{}", c).unwrap();
